@@ -17,6 +17,8 @@ naming conventions see plain user code.
 """
 from __future__ import annotations
 
+import json
+
 from dataclasses import field, make_dataclass
 from fractions import Fraction as Fr
 
@@ -123,12 +125,16 @@ def expr_vars(e, acc=None) -> set:
 _FUNCS: dict = {}
 
 
-def mkfunc(name: str, args: list[str], body, stochastic: bool = False, ints: bool = True):
+def mkfunc(name: str, args: list[str], body, stochastic: bool = False, ints: bool = True, stacked: bool = False):
     """The same source text gives the same function *object* within a process - as for a user who defines the model
     functions once at module level and uses them in several specifications (what a cache keyed on function objects
     inside the library would see)."""
     I = impl()
     code = f"def {name}({', '.join(args)}):\n    return {src(body, ints)}\n"
+    if stacked and isinstance(body, list) and body and body[0] == "add":
+        # the same scalar function written with a reduction over a small stacked vector: legal for lcm (model functions are
+        # evaluated on scalars under vmap), but not broadcast-safe - calling it on whole columns gives one number
+        code = f"def {name}({', '.join(args)}):\n    return jnp.array([{src(body[1], ints)}, {src(body[2], ints)}]).sum()\n"
     if (code, stochastic) in _FUNCS:
         return _FUNCS[(code, stochastic)]
     f = _mkfunc(I, name, code, stochastic)
@@ -153,7 +159,19 @@ def num_py(s: str):
     return int(q) if q.denominator == 1 else float(q)
 
 
+_GRIDS: dict = {}
+
+
 def mkgrid(g: dict):
+    """Equal grid descriptions give the same grid *object* within a process (a user who reorders the entries of a dict keeps
+    the objects; `DiscreteGrid` compares by identity)."""
+    key = json.dumps(g, sort_keys=True, default=str)
+    if key not in _GRIDS:
+        _GRIDS[key] = _mkgrid(g)
+    return _GRIDS[key]
+
+
+def _mkgrid(g: dict):
     impl()
     from lcm import DiscreteGrid, LinspaceGrid, LogspaceGrid
 
@@ -174,12 +192,13 @@ def build_model(mj: dict):
     impl()
     from lcm import Model
 
+    made = {f["name"]: mkfunc(f["name"], f["args"], f["body"], f.get("stochastic", False), f.get("ints", True), f.get("stacked", False))
+            for f in mj["functions"] if not f.get("same_as")}
+    # declaration order is kept; `same_as`: the very same callable under a second name
+    fobjs = {f["name"]: made[f["same_as"]] if f.get("same_as") else made[f["name"]] for f in mj["functions"]}
     return Model(
         n_periods=mj["n_periods"],
-        functions={
-            f["name"]: mkfunc(f["name"], f["args"], f["body"], f.get("stochastic", False), f.get("ints", True))
-            for f in mj["functions"]
-        },
+        functions=fobjs,
         choices={k: mkgrid(g) for k, g in mj["choices"]},
         states={k: mkgrid(g) for k, g in mj["states"]},
     )
